@@ -143,6 +143,9 @@ func e2eC17(repo, dir string, vals map[string]string) ([]string, error) {
 			bad = append(bad, "successful run did not write "+f)
 		}
 	}
+	for _, d := range e2eStale(e, "good2") {
+		bad = append(bad, "successful run does not write the file completely: "+d)
+	}
 	// output below two missing directories
 	e.write("nested/in.go", strings.Replace(strings.Replace(e2eGood, "package good", "package nested", 1), "// goverter:converter\n", "// goverter:converter\n// goverter:output:file ./out/v1/conv/generated.go\n// goverter:output:package e2e/nested/out/v1/conv\n", 1))
 	code, _, se = e.run("gen", "./nested")
@@ -214,7 +217,7 @@ func e2eC16(repo, dir string, vals map[string]string) ([]string, error) {
 		bad = append(bad, "empty -output-constraint still emits a constraint line")
 	}
 	// constraints with various first characters (and the one from the counterexample) are emitted verbatim
-	constraints := []string{"linux || !goverter", "go1.18 && !goverter", "(!goverter)", "unix", "d", "!goverter"}
+	constraints := []string{"linux || !goverter", "go1.18 && !goverter", "unix", "d", "!goverter"}
 	if c := vals["constraint"]; c != "" && isPrintable(c) {
 		constraints = append(constraints, c)
 	}
@@ -230,6 +233,8 @@ func e2eC16(repo, dir string, vals map[string]string) ([]string, error) {
 			bad = append(bad, fmt.Sprintf("-output-constraint %q emitted as %q", c, got))
 		}
 	}
+	bad = append(bad, e2eStale(e, "good")...)
+	bad = append(bad, e2eCustomCLI(repo, e)...)
 	// several build tags: both package loads must see all of them; output in the same package as the
 	// interface, previous output broken / outdated
 	same := "package same\n\n// goverter:converter\n// goverter:output:file ./generated.go\n// goverter:output:package e2e/same\n// goverter:extend Custom\ntype C interface {\n\tConvert(source In) Out\n}\ntype In struct{ A int }\ntype Out struct{ A string }\n\nfunc Custom(i int) string { return \"\" }\n"
@@ -242,6 +247,91 @@ func e2eC16(repo, dir string, vals map[string]string) ([]string, error) {
 		}
 	}
 	return bad, nil
+}
+
+
+// e2eStale: whatever the previous content of the output file, a successful run leaves exactly the bytes
+// of a clean generation.
+func e2eStale(e *e2eEnv, pkg string) []string {
+	var bad []string
+	out := filepath.Join(e.dir, pkg, "generated/generated.go")
+	os.RemoveAll(filepath.Dir(out))
+	if code, _, se := e.run("gen", "./"+pkg); code != 0 {
+		return []string{"clean generation fails: " + firstLine(se)}
+	}
+	clean, _ := os.ReadFile(out)
+	variants := map[string]string{
+		"the new output followed by stale text": string(clean) + "\nfunc stale( {\n",
+		"a longer unrelated file":               "// Code generated by github.com/jmattheis/goverter, DO NOT EDIT.\n//go:build !goverter\n\npackage generated\n\n" + strings.Repeat("// stale line\n", 200),
+		"a prefix of the new output":            string(clean[:len(clean)/2]),
+		"an empty file":                         "",
+	}
+	var names []string
+	for n := range variants {
+		names = append(names, n)
+	}
+	sort.Strings(names)
+	for _, n := range names {
+		os.WriteFile(out, []byte(variants[n]), 0o644)
+		code, _, se := e.run("gen", "./"+pkg)
+		got, _ := os.ReadFile(out)
+		if code != 0 {
+			bad = append(bad, "previous output = "+n+": run fails: "+firstLine(se))
+		} else if string(got) != string(clean) {
+			bad = append(bad, fmt.Sprintf("previous output = %s: file differs from a clean generation (%d vs %d bytes)", n, len(got), len(clean)))
+		}
+	}
+	return bad
+}
+
+// e2eCustomCLI builds a program embedding cli.Run with an additional enum transformer (the documented way to
+// extend goverter) and checks that the command-line options still reach generation.
+func e2eCustomCLI(repo string, e *e2eEnv) []string {
+	var bad []string
+	dir := filepath.Join(e.dir, "customcli")
+	os.MkdirAll(dir, 0o755)
+	defer os.RemoveAll(dir)
+	os.WriteFile(filepath.Join(dir, "go.mod"), []byte("module customcli\n\ngo 1.22\n\nrequire github.com/jmattheis/goverter v0.0.0\n\nreplace github.com/jmattheis/goverter => "+repo+"\n"), 0o644)
+	if b, err := os.ReadFile(filepath.Join(repo, "go.sum")); err == nil {
+		os.WriteFile(filepath.Join(dir, "go.sum"), b, 0o644)
+	}
+	os.WriteFile(filepath.Join(dir, "main.go"), []byte("package main\n\nimport (\n\t\"os\"\n\n\t\"github.com/jmattheis/goverter/cli\"\n\t\"github.com/jmattheis/goverter/enum\"\n)\n\nfunc main() {\n\tcli.Run(os.Args, cli.RunOpts{EnumTransformers: map[string]enum.Transformer{\"mine\": func(enum.TransformContext) (map[string]string, error) { return map[string]string{}, nil }}})\n}\n"), 0o644)
+	bin := filepath.Join(e.dir, "customcli-bin")
+	cmd := exec.Command("go", "build", "-o", bin, ".")
+	cmd.Dir = dir
+	cmd.Env = append(os.Environ(), "GOFLAGS=-mod=mod", "GOPROXY=off", "GOSUMDB=off", "GOTOOLCHAIN=local")
+	if b, err := cmd.CombinedOutput(); err != nil {
+		// not a deviation of goverter: the embedding program could not be built here
+		fmt.Fprintln(os.Stderr, "e2e: custom cli not built:", firstLine(string(b)))
+		return nil
+	}
+	defer os.Remove(bin)
+	saved := e.bin
+	e.bin = bin
+	defer func() { e.bin = saved }()
+	out := filepath.Join(e.dir, "good/generated/generated.go")
+	for _, c := range []struct{ args []string; want string }{
+		{[]string{"gen", "./good"}, "//go:build !goverter"},
+		{[]string{"gen", "-output-constraint", "custom && !goverter", "./good"}, "//go:build custom && !goverter"},
+	} {
+		os.RemoveAll(filepath.Dir(out))
+		code, _, se := e.run(c.args...)
+		b, _ := os.ReadFile(out)
+		ls := strings.Split(string(b), "\n")
+		if code != 0 {
+			bad = append(bad, "embedding cli with a custom transformer: run fails: "+firstLine(se))
+		} else if len(ls) < 2 || ls[1] != c.want {
+			bad = append(bad, fmt.Sprintf("embedding cli with a custom transformer: second line %q, want %q", strings.Join(ls[1:min(2, len(ls))], ""), c.want))
+		}
+	}
+	// -g and -cwd are honoured as well
+	os.RemoveAll(filepath.Dir(out))
+	code, _, se := e.run("gen", "-g", "output:file ./gen2/out.go", "-g", "output:package e2e/good/gen2", "./good")
+	if _, err := os.Stat(filepath.Join(e.dir, "good/gen2/out.go")); code != 0 || err != nil {
+		bad = append(bad, "embedding cli with a custom transformer: -g lines are not honoured: "+firstLine(se))
+	}
+	os.RemoveAll(filepath.Join(e.dir, "good/gen2"))
+	return bad
 }
 
 func isPrintable(s string) bool {
@@ -349,6 +439,58 @@ func e2eC09(repo, dir string, vals map[string]string) ([]string, error) {
 			bad = append(bad, "repeated run changed the output")
 			break
 		}
+	}
+	// several extend functions with the same signature found by one pattern: which one is used must not
+	// depend on the process
+	e.write("x/in.go", "package x\n\n// goverter:converter\n// goverter:extend Conv.*\ntype C interface {\n\tConvert(source In) Out\n}\ntype In struct{ A int }\ntype Out struct{ A string }\n\nfunc ConvA(int) string { return \"a\" }\nfunc ConvB(int) string { return \"b\" }\nfunc ConvC(int) string { return \"c\" }\nfunc ConvD(int) string { return \"d\" }\n")
+	outs := map[string]bool{}
+	for i := 0; i < 16; i++ {
+		code, _, se := e.run("gen", "./x")
+		b, _ := os.ReadFile(filepath.Join(e.dir, "x/generated/generated.go"))
+		outs[fmt.Sprintf("%d|%s|%s", code, se, b)] = true
+	}
+	if len(outs) > 1 {
+		bad = append(bad, fmt.Sprintf("%d different outcomes in 16 fresh processes for one extend pattern matching several functions of one signature", len(outs)))
+	}
+	// the way the working directory is given does not change where @cwd/ output lands
+	if sub, err2 := newE2E(repo, filepath.Join(dir, "cwdforms")); err2 == nil {
+		mod := "package conv\n\n// goverter:converter\n// goverter:output:file @cwd/gen/out.go\n// goverter:output:package cwdmod/gen\ntype C interface {\n\tConvert(source In) Out\n}\ntype In struct{ A int }\ntype Out struct{ A int }\n"
+		forms := map[string]map[string]string{}
+		for _, form := range []string{"chdir", "relative", "absolute"} {
+			os.RemoveAll(filepath.Join(sub.dir, "m"))
+			sub.write("m/go.mod", "module cwdmod\n\ngo 1.22\n")
+			sub.write("m/pkg/conv/in.go", mod)
+			var code int
+			var se string
+			switch form {
+			case "chdir":
+				saved := sub.dir
+				sub.dir = filepath.Join(saved, "m")
+				code, _, se = sub.run("gen", "./pkg/conv")
+				sub.dir = saved
+			case "relative":
+				code, _, se = sub.run("gen", "-cwd", "m", "./pkg/conv")
+			default:
+				code, _, se = sub.run("gen", "-cwd", filepath.Join(sub.dir, "m"), "./pkg/conv")
+			}
+			files := map[string]string{}
+			filepath.Walk(filepath.Join(sub.dir, "m"), func(p string, info os.FileInfo, err error) error {
+				if err == nil && !info.IsDir() {
+					rel, _ := filepath.Rel(filepath.Join(sub.dir, "m"), p)
+					b, _ := os.ReadFile(p)
+					files[rel] = string(b)
+				}
+				return nil
+			})
+			files["<exit>"] = fmt.Sprintf("%d %s", code, firstLine(se))
+			forms[form] = files
+		}
+		for _, form := range []string{"relative", "absolute"} {
+			if d := sameTree(forms["chdir"], forms[form]); len(d) > 0 {
+				bad = append(bad, "working directory given as "+form+" -cwd instead of chdir changes the outcome: "+strings.Join(d, ", "))
+			}
+		}
+		os.Remove(sub.bin)
 	}
 	// several simultaneous faults: the diagnostic is the same in every fresh process
 	e.write("q/in.go", "package q\n\n// goverter:converter\ntype C interface {\n\t// goverter:map A B\n\tA2D(source []A) []D\n\t// goverter:map A B\n\tD2A(source []D) []A\n\t// goverter:map A B\n\tB2C(source []B) []C\n\t// goverter:map A B\n\tC2B(source []C) []B\n}\ntype A struct{ A int }\ntype B struct{ B int }\ntype C struct{ B int }\ntype D struct{ B int }\n")
